@@ -125,6 +125,9 @@ def classify(outcomes, res, prop):
                     raise T.MachineryError("replayer failed: " + b["raised"])
                 if b.get("prop") != prop:
                     continue
+                if core.interpreter_limit(b.get("raised"), att["par"]):
+                    res.extra["skipped_at_the_interpreters_recursion_limit"] = res.extra.get("skipped_at_the_interpreters_recursion_limit", 0) + 1
+                    continue
                 v = b.get("verdict")
                 structural_ok = v is not None and prop not in v
                 if b.get("direct") or "raised" in b or (v is not None and prop in v):
